@@ -238,9 +238,14 @@ ResetStep(ln) ==
     /\ W' = [nodes |-> ToSet(ln.a.nodes), accts |-> ToSet(ln.a.accts)]
     /\ l' = l + 1
 
+\* the driver could not express an amount in model units: matters to the money aspects only
+MoneyFocus == F("ledger") \/ F("total") \/ F("billing") \/ F("withdraw") \/ F("lowbal")
+LineOK(ln) == /\ Chk("the driver flagged the line", ln.bad = "")
+              /\ Chk("an amount is not a multiple of the price unit / out of range", MoneyFocus => ln.badamt = "")
+
 TNext == /\ l <= Len(Trace)
          /\ LET ln == Trace[l] IN
-            /\ ln.bad = ""
+            /\ LineOK(ln)
             /\ \/ ResetStep(ln)
                \/ CrashStep(ln)
                \/ IsStoreOp(ln.op) /\ StoreStep(ln)
